@@ -57,6 +57,8 @@ def validate(c, pid, trace_path, what):
 
 def run_reg(c, exe, args, what):
     p = vlib.run([exe] + args)
+    if p.returncode in (-9, 137, -15):
+        raise vlib.ToolError("reg %s was killed (exit %d: out of memory or external kill), not a verdict" % (what, p.returncode))
     if p.returncode != 0:
         last = [l for l in p.stderr.splitlines() if l.startswith("@")]
         rp = c.replay_file("crash_%s.txt" % what, (last[-1] if last else "") + "\n" + p.stderr[-2000:])
@@ -80,19 +82,22 @@ def run(pid, tier, replay=None):
             validate(c, pid, replay, "replay")
         return c.finish()
     # 1. design check (bounded exhaustive) of the property's invariants on the Registry specification
-    n, kids, hist, many = (3, 2, 3, True) if thorough else (3, 2, 3, False)
-    r = vlib.tlc_design("MC_Registry", mc_cfg(pid, wd, n, kids, hist, many), wd, workers=8, heap="12g")
-    c.cov["states"] = r.distinct
-    c.cov["transitions"] = r.generated
-    # 2. spec -> impl: every terminal behaviour replayed on the real Registry
-    g = vlib.tlc("MC_Registry", mc_cfg(pid, wd, 3, 2, 3, many, emit=True), wd, workers=8, heap="12g")
-    if not g.ok:
-        raise vlib.ToolError("case emission failed: " + "\n".join(g.errors[:3]))
-    cf = os.path.join(wd, "Gen_Registry_%s.cfg.out" % pid)
-    ncases = sum(1 for l in open(cf) if l.startswith('<<"REPLAY"'))
-    if ncases == 0:
-        raise vlib.ToolError("no cases emitted")
-    replay_cases(c, pid, exe, cf, ncases)
+    runs = [(3, 2, 3, False)] + ([(3, 2, 2, True)] if thorough else [])      # (N, MaxKids, MaxHist, register_types too)
+    c.cov["states"] = 0; c.cov["transitions"] = 0
+    for (n, kids, hist, many) in runs:
+        r = vlib.tlc_design("MC_Registry", mc_cfg(pid, wd, n, kids, hist, many), wd, workers=8, heap="12g")
+        c.cov["states"] += r.distinct
+        c.cov["transitions"] += r.generated
+        # 2. spec -> impl: every terminal behaviour replayed on the real Registry
+        g = vlib.tlc("MC_Registry", mc_cfg(pid, wd, n, kids, hist, many, emit=True), wd, workers=8, heap="12g")
+        if not g.ok:
+            raise vlib.ToolError("case emission failed: " + "\n".join(g.errors[:3]))
+        cf = os.path.join(wd, "Gen_Registry_%s.cfg.out" % pid)
+        ncases = sum(1 for l in open(cf) if l.startswith('<<"REPLAY"'))
+        if ncases == 0:
+            raise vlib.ToolError("no cases emitted")
+        replay_cases(c, pid, exe, cf, ncases)
+    many = thorough
     # 3. impl -> spec: seeded random universes (<=12 identities, all kinds, cycles, aliases, phantoms)
     tr = os.path.join(wd, "rand.ndjson")
     cnt = 600 if thorough else 120
